@@ -272,5 +272,5 @@ func genGrammar(t *rapid.T) bytesCase {
 func init() {
 	ev.Define("grammar", ev.Options{
 		Rule:  "byte strings assembled field by field along the formats' layout for Polygon (lossless and compressed), Loop, Polyline, CellUnion: 0–4 loops of 0–8 vertices from a palette of 21 unit points (1 in 25 hostile floats), declared counts equal to the actual ones 18 times in 20 (else ±1), arbitrary origin-inside bytes, depths (0..3, 1 in 6 from {1000, 2^31−1, 2^31, 2^32−1, 2^63, 2^64−1}), property bits, bounds that need not bound (full, empty, random, hostile), face runs that cover / over-cover / under-cover, point deltas small / random / 2^64−1, off-centre tables with in-range and hostile indices. Same oracles as 'mutated'. Non-trivial = past the version byte and ≥ 1 count field reached.",
-		Quick: 40000, Thorough: 1500000, Journal: true}, genGrammar, checkBytesCase)
+		Quick: 40000, Thorough: 800000, Journal: true}, genGrammar, checkBytesCase)
 }
